@@ -56,6 +56,13 @@ CLAIMED.update({
    note="In-memory provider; command-error retries and busy devices need the simulated SII register interface (simulator-based part)."),
 })
 
+CLAIMED.update({
+ "C19": dict(engine="wiregen", category="translation_validation", design_ref="§5 C19",
+   technique="program generation + differential testing: hundreds of generated derive programs per run are compiled against /repo/ethercrab-wire and driven with generated values and buffers; an independent bit-level reference packer/unpacker built from the declared layout table is the oracle",
+   text="Each run generates 300 (quick) / 12x600 (thorough) struct and enum definitions inside the grammar the derive macros accept, compiles them, and for every type checks pack()/pack_to_slice() bytes, unpack of arbitrary buffers (PACKED_LEN-3..+3), round trips, short-buffer errors and panics against the reference; layouts the macro must reject are compiled separately and must fail; built-in impls (primitives, bool, tuples, arrays, heapless) and the public in-crate wire types are checked with proptest.",
+   note="Not generated (judgement, see DESIGN.md): signed integers in sub-byte fields, multi-byte fields whose declared width differs from the type's size, implicit width for f32. Trusts the reference packer in harness/vlib/src/wiregen.rs."),
+})
+
 NOT_YET = {}
 
 ALL = [f"C{i:02d}" for i in range(1,21)]
@@ -90,6 +97,7 @@ def main():
       "engines":[
         {"name":"pdusim","path":"harness/vlib","serves_properties":[p for p in CLAIMED if CLAIMED[p]["engine"]=="pdusim"],"kind_free_text":"PDU-loop harness: real frame builder / TX / RX driven op by op under a virtual clock, reference frame encoder, slot snapshots through verif-hooks"},
         {"name":"sii","path":"harness/vlib/src/sii.rs","serves_properties":["C12","C13","C14"],"kind_free_text":"independent SII EEPROM encoder + in-memory EepromDataProvider (4/8 byte chunks, read budget), driven through the verif-hooks SiiQueries facade"},
+        {"name":"wiregen","path":"harness/vlib/src/wiregen.rs","serves_properties":["C19"],"kind_free_text":"derive-program generator, Rust source emitter, request/response executor, bit-level reference packer"},
         {"name":"a2","path":"harness/vlib/src/a2.rs","serves_properties":["C01","C02","C06"],"kind_free_text":"yield-level scheduler: parties as ucontext coroutines on one thread, baton handed over at every verif-hooks point, schedules generated (random/PCT) or enumerated (pre-emption bounded), ownership monitor"},
       ],
       "checks":checks,
